@@ -152,8 +152,8 @@ PROPS = {
     },
     "C15": {
         "theorems": [],
-        "suites": [{"name": "histories", "quick": 600, "thorough": 10000}],
-        "required_tags": ["histories:valid", "histories:cut", "histories:corrupt", "histories:overlimit", "histories:backend-panic", "histories:validation", "pool.trace:history"],
+        "suites": [{"name": "histories", "quick": 600, "thorough": 10000}, {"name": "poolops", "quick": 600, "thorough": 20000}],
+        "required_tags": ["poolops.len:5", "histories:valid", "histories:cut", "histories:corrupt", "histories:overlimit", "histories:backend-panic", "histories:validation", "pool.trace:history"],
         "trivial_tags": [],
         "level_text": "wip", "level_note": "wip",
     },
